@@ -154,38 +154,44 @@ enum A {
     /// `clone_from` a handle of this channel into a handle of a fresh second channel: the old
     /// channel must lose that handle, this one gains it
     CloneFrom,
+    /// 36 futures created and polled once in a row (deep waiting lists: batch limits, ring
+    /// wrap-around of the waiting list), to be completed / dropped by the rest of the history
+    FutBurst,
 }
-const ALPHA: [(A, u32); 30] = [
-    (A::Send, 5),
-    (A::SendTimeout0, 3),
-    (A::SendOptTimeout0, 3),
-    (A::TrySend, 4),
-    (A::TrySendOpt, 3),
-    (A::TrySendRt, 2),
-    (A::TrySendOptRt, 2),
-    (A::Recv, 5),
-    (A::RecvTimeout0, 3),
-    (A::TryRecv, 4),
-    (A::TryRecvRt, 2),
-    (A::Drain, 3),
-    (A::IterNext, 2),
-    (A::SendFutNew, 5),
-    (A::RecvFutNew, 5),
-    (A::PollFut, 10),
-    (A::DropFut, 3),
-    (A::StreamNew, 2),
-    (A::StreamPoll, 6),
-    (A::StreamDrop, 1),
-    (A::CloneSame, 3),
-    (A::CloneCross, 3),
-    (A::Convert, 3),
-    (A::DropHandle, 4),
-    (A::Close, 1),
-    (A::Observe, 5),
-    (A::TrySendOptNone, 1),
-    (A::CloneBurst, 1),
-    (A::SendBurst, 1),
+// Weights are twice what they were before `FutBurst` took half of `CloneFrom`'s share, so the
+// byte -> letter mapping of every other letter (and of the saved regression cases) is unchanged.
+const ALPHA: [(A, u32); 31] = [
+    (A::Send, 10),
+    (A::SendTimeout0, 6),
+    (A::SendOptTimeout0, 6),
+    (A::TrySend, 8),
+    (A::TrySendOpt, 6),
+    (A::TrySendRt, 4),
+    (A::TrySendOptRt, 4),
+    (A::Recv, 10),
+    (A::RecvTimeout0, 6),
+    (A::TryRecv, 8),
+    (A::TryRecvRt, 4),
+    (A::Drain, 6),
+    (A::IterNext, 4),
+    (A::SendFutNew, 10),
+    (A::RecvFutNew, 10),
+    (A::PollFut, 20),
+    (A::DropFut, 6),
+    (A::StreamNew, 4),
+    (A::StreamPoll, 12),
+    (A::StreamDrop, 2),
+    (A::CloneSame, 6),
+    (A::CloneCross, 6),
+    (A::Convert, 6),
+    (A::DropHandle, 8),
+    (A::Close, 2),
+    (A::Observe, 10),
+    (A::TrySendOptNone, 2),
+    (A::CloneBurst, 2),
+    (A::SendBurst, 2),
     (A::CloneFrom, 1),
+    (A::FutBurst, 1),
 ];
 fn pick_a(b: u8) -> A {
     pick_a_masked(b, 0)
@@ -508,7 +514,10 @@ impl<const N: usize> World<N> {
 
     fn step(&mut self, raw: [u8; 3]) {
         let a = pick_a_masked(raw[0], self.mask);
-        let (b1, b2) = (raw[1], raw[2]);
+        self.step_a(a, raw[1], raw[2]);
+    }
+
+    fn step_a(&mut self, a: A, b1: u8, b2: u8) {
         match a {
             A::Send | A::SendTimeout0 | A::SendOptTimeout0 | A::TrySend | A::TrySendOpt | A::TrySendRt | A::TrySendOptRt => {
                 let Some(hi) = self.pick(Some(true), b1) else { return };
@@ -1082,6 +1091,27 @@ impl<const N: usize> World<N> {
                 self.observe(hi);
                 self.flags.insert("send_burst");
             }
+            A::FutBurst => {
+                let n = if small_bursts() { 6 } else { 36 };
+                let send = b2 & 1 == 0;
+                self.trace.push(format!("FutBurst({} x {})", n, if send { "send" } else { "recv" }));
+                for _ in 0..n {
+                    if !self.viol.is_empty() {
+                        return;
+                    }
+                    let Some(slot) = self.futs.iter().position(|f| f.is_none()) else { break };
+                    self.step_a(if send { A::SendFutNew } else { A::RecvFutNew }, b1, 0);
+                    if self.futs[slot].is_none() {
+                        break; // no handle of that side
+                    }
+                    // first poll of exactly that future, waker from b2
+                    let live: Vec<usize> = (0..self.futs.len()).filter(|&i| self.futs[i].is_some()).collect();
+                    let j = live.iter().position(|&x| x == slot).unwrap();
+                    let sel = ((j * 256 + live.len() - 1) / live.len()) as u8;
+                    self.step_a(A::PollFut, sel, b2 >> 1);
+                }
+                self.flags.insert("fut_burst");
+            }
             A::CloneFrom => {
                 let Some(hi) = self.pick(None, b1) else { return };
                 self.trace.push(format!("CloneFrom(h{})", hi));
@@ -1342,7 +1372,7 @@ fn run_world<const N: usize>(case: &SCase, caps: &[Option<usize>]) -> (World<N>,
         .collect();
     let mut w = World::<N> {
         hs,
-        futs: (0..8).map(|_| None).collect(),
+        futs: (0..48).map(|_| None).collect(),
         strm: None,
         m: Chan::new(cap, 1, 1),
         next_id: 0,
@@ -1464,7 +1494,7 @@ fn nontrivial(prop: &str, flags: &BTreeSet<&'static str>) -> bool {
         }
         "C16" => has("spurious_poll") || has("waker_change") || has("stream_second_wait"),
         "C12" => (has("cross_clone") || has("convert")) && has("drop_out_of_order"),
-        "C01" => has("drain_took_pending_sender") || has("send_burst") || has("registered_future"),
+        "C01" => has("drain_took_pending_sender") || has("send_burst") || has("fut_burst") || has("registered_future"),
         "C08" => has("send_on_full") || has("send_burst"),
         _ => true,
     }
